@@ -27,7 +27,7 @@ LEVEL_TEXT = ('Full in exact arithmetic: Coq theorems over R about predict / cor
               '(no side condition); the new acceleration is zero only for a zero correction; a corrector with an absolute dead band |UCorrection| <= tau is '
               'refuted as non-homogeneous for every tau > 0; one step commutes with scaling / addition whenever the minimiser does; for linear elasticity '
               '(M positive definite, K >= 0, beta > 0) the stationary point of the algorithmic energy is unique, so every minimiser oracle is linear and the '
-              'whole run is a linear map of the initial state (every gamma, every sequence of non-zero steps), restated over the modelled energies of a mesh '
+              'whole run is a linear map of the initial state (every gamma, every sequence of non-zero steps; kinetic + strain energy scales with s^2), restated over the modelled energies of a mesh '
               'with no hypothesis on forms (C15_fe_run_scale_invariant / _additive). '
               'PURITY (round 4): store model of the statements of predict / correct (model/M_C15_Purity.v: heap of (value, writable) objects, names -> addresses, '
               'x += e in place for writable objects and rebinding otherwise, jit(f) runs on fresh immutable copies); statement lists, returned names and the jit '
@@ -637,6 +637,11 @@ def scale_case(ctx, P, U, V, A, dts, s, skind, ref=None):
                          '%.17g * (the %s of the run started from (U0, V0, A0)) by %.3g relative to its size (allowed %.1g); |%s| of the scaled run %.3g, expected %.3g'
                          % (s, nm, k + 1, s, nm, err, tol, nm, nrm(x), abs(s) * nrm(y)), case=dict(case, step=k), concrete=True)
                 return worst, ref
+        Er, Es = float(P.ke(Vr) + P.se(Ur)), float(P.ke(Vs) + P.se(Us))
+        if not abs(Es - s * s * Er) <= tol * s * s * abs(Er):
+            ctx.fail('conclusion', 'kinetic + strain energy reported for the run started from %.17g * (U0, V0, A0) after step %d is %r, but s^2 * (energy of the unit run) = %r: '
+                     'the reported energies are quadratic forms of the state' % (s, k + 1, Es, s * s * Er), case=dict(case, step=k), concrete=True)
+            return worst, ref
     return worst, ref
 
 
